@@ -113,7 +113,7 @@ func replayCorpus(dir, mode string, w *vh.Writer) int {
 				rc = 4
 				continue
 			}
-			cs, err := outboundCase("corpus_"+k, dialled, chain)
+			cs, err := outboundCase("corpus_"+k, dialled, chain, false)
 			if err != nil {
 				fmt.Fprintf(os.Stderr, "certdrv: corpus session %d could not be observed: %v\n", i, err)
 				rc = 3
